@@ -768,6 +768,38 @@ func verifAssume(cond bool) {}
 //@   props C09
 //@   modifies nothing
 //@   ensures [C09] @choosesconfigured result == c
+// The client builder's credentials: the authenticator installed by ...Authentication returns
+// normally (C08 is stated "given ... authenticator callbacks that themselves return normally" -
+// the library's own ones do), answers every request with a credential object of its own scheme
+// and, where there is one, with exactly the credential the application configured; installing
+// it changes that field of the configuration and nothing else.
+//@ func (*ClientBuilder).GuestAuthentication :: (b) (result)
+//@   props C08
+//@   requires b != nil && b.config != nil && !sameobj(b.config, b)
+//@   modifies b.config.Authenticator
+//@   ensures [C08] @installs result == b && b.config.Authenticator != nil
+//@ func (*ClientBuilder).GuestAuthentication$1 :: (schemes, roundTrip) (result)
+//@   props C08
+//@   modifies nothing
+//@   ensures [C08] @guestcredential result != nil && istype(result, *GuestAuthentication)
+//@ func (*ClientBuilder).TransportAuthentication :: (b) (result)
+//@   props C08
+//@   requires b != nil && b.config != nil && !sameobj(b.config, b)
+//@   modifies b.config.Authenticator
+//@   ensures [C08] @installs result == b && b.config.Authenticator != nil
+//@ func (*ClientBuilder).TransportAuthentication$1 :: (schemes, roundTrip) (result)
+//@   props C08
+//@   modifies nothing
+//@   ensures [C08] @transportcredential result != nil && istype(result, *TransportAuthentication)
+//@ func (*ClientBuilder).ExternalAuthentication :: (b, token, issuer) (result)
+//@   props C08
+//@   requires b != nil && b.config != nil && !sameobj(b.config, b)
+//@   modifies b.config.Authenticator
+//@   ensures [C08] @installs result == b && b.config.Authenticator != nil
+//@ func (*ClientBuilder).ExternalAuthentication$1 :: (schemes, roundTrip) (result)
+//@   props C08
+//@   modifies nothing
+//@   ensures [C08] @configuredcredential result != nil && istype(result, *ExternalAuthentication) && result.(*ExternalAuthentication).Token == token && result.(*ExternalAuthentication).Issuer == issuer
 //@ func (*ClientBuilder).ChannelBufferSize :: (b, bufferSize) (result)
 //@   props C04
 //@   requires b != nil && b.config != nil && !sameobj(b.config, b)
